@@ -200,7 +200,10 @@ class PhaseFieldHistory(Scn):
 
     def named(self, simu):
         out = {"psiP": np.atleast_1d(np.array(simu.Result("psiP", nodeValues=False), dtype=float)),
-               "damage": np.atleast_1d(np.array(simu.Result("damage"), dtype=float))}
+               "damage": np.atleast_1d(np.array(simu.Result("damage"), dtype=float)),
+               # matrix-based scalar results (use the assembled K_u(d) / K_d of the current state)
+               "Wdef": np.atleast_1d(np.array(simu.Result("Wdef"), dtype=float)),
+               "Psi_Crack": np.atleast_1d(np.array(simu.Result("Psi_Crack"), dtype=float))}
         return out
 
 
@@ -210,7 +213,9 @@ class PhaseFieldHistoryDamage(PhaseFieldHistory):
     results = ["damage"]
 
     def named(self, simu):
-        return {"damage": np.atleast_1d(np.array(simu.Result("damage"), dtype=float))}
+        return {"damage": np.atleast_1d(np.array(simu.Result("damage"), dtype=float)),
+                "Wdef": np.atleast_1d(np.array(simu.Result("Wdef"), dtype=float)),
+                "Psi_Crack": np.atleast_1d(np.array(simu.Result("Psi_Crack"), dtype=float))}
 
 
 class InElasticScn(Scn):
@@ -434,7 +439,7 @@ def _run(case, scn, tmp):
                 try:
                     r = np.atleast_1d(np.array(simu.Result(name, nodeValues=False) if name not in ("damage", "thermal", "thermalDot", "u", "displacement_norm")
                                                else simu.Result(name, iter=0), dtype=float))
-                    r = np.atleast_1d(np.array(simu.Result(name, nodeValues=(name in ("damage", "thermal", "thermalDot", "u", "displacement_norm")), iter=0), dtype=float))
+                    r = np.atleast_1d(np.array(simu.Result(name, nodeValues=(name in ("damage", "thermal", "thermalDot", "u", "displacement_norm", "Wdef", "Psi_Crack")), iter=0), dtype=float))
                 except Exception as err:
                     out.append(viol("result_iter_raises", f"after {done}: Result({name!r}, iter=0) raised {type(err).__name__}: {err}", result=name, **kk))
                     continue
